@@ -8,6 +8,7 @@ inspect.Signature, ast.NodeVisitor, MutableMapping (vf/models.py).
 Statement execution functions are host generators so that interpreted generator functions suspend naturally.
 """
 import ast
+import types
 import hashlib
 import os
 import sys
@@ -1042,19 +1043,26 @@ class Interp:
                 return
             it = self.iter_(itv)
             broke = False
-            while True:
-                try:
-                    x = next(it)
-                except StopIteration:
-                    break
-                self.assign(s.target, x, frame)
-                try:
-                    yield from self.exec_block(s.body, frame)
-                except BreakEx:
-                    broke = True
-                    break
-                except ContinueEx:
-                    continue
+            try:
+                while True:
+                    try:
+                        x = next(it)
+                    except StopIteration:
+                        break
+                    self.assign(s.target, x, frame)
+                    try:
+                        yield from self.exec_block(s.body, frame)
+                    except BreakEx:
+                        broke = True
+                        break
+                    except ContinueEx:
+                        continue
+            finally:
+                # CPython drops its only reference to an anonymous iterator when the statement is left: a generator
+                # suspended inside try/finally (or a with block) is closed at that very moment, not at some later
+                # collection
+                if isinstance(s.iter, ast.Call) and isinstance(it, types.GeneratorType):
+                    it.close()
             if not broke:
                 yield from self.exec_block(s.orelse, frame)
         elif t is ast.While:
@@ -1117,6 +1125,11 @@ class Interp:
                     yield from self.exec_block(s.orelse, frame)
             except (ReturnEx, BreakEx, ContinueEx, PyExc) as e:
                 pending = e
+            except GeneratorExit as e:
+                # the interpreted generator this statement runs in is being closed while suspended inside the try body
+                # (its consumer left the loop and dropped it): CPython raises GeneratorExit at the yield, so the
+                # finally clause runs - now
+                pending = e
             if s.finalbody:
                 yield from self.exec_block(s.finalbody, frame)
             if pending is not None:
@@ -1137,6 +1150,18 @@ class Interp:
                         raise PyExc(NameError, (tg.id,))
                 elif isinstance(tg, ast.Attribute):
                     self.delattr_(self.ev(tg.value, frame), tg.attr)
+                elif isinstance(tg, ast.Subscript) and isinstance(tg.slice, ast.Slice):
+                    o = self.ev(tg.value, frame)
+                    sl = tg.slice
+                    lo = self.ev(sl.lower, frame) if sl.lower else None
+                    hi = self.ev(sl.upper, frame) if sl.upper else None
+                    if sl.step is not None or not isinstance(o, list):
+                        raise EngineLimit('del of a slice of %r' % type(o).__name__)
+                    lo = self._concrete_bound(lo, len(o))
+                    hi = self._concrete_bound(hi, len(o))
+                    if o[lo:hi]:
+                        sym.note_write(o)
+                    del o[lo:hi]
                 elif isinstance(tg, ast.Subscript):
                     o = self.ev(tg.value, frame)
                     k = self.ev(tg.slice, frame)
